@@ -519,6 +519,79 @@ func deriveSchedule(c caseJ, init [4]int64, grants []granted, ng int) (progs [][
 	return
 }
 
+// runMulti: K peers with stored totals and cheques, sequential operations (no gate), restart on
+// the same store; every peer's totals must be restored to at least what its completed
+// operations produced (the restore loop over peers is glue around the per-peer model).
+type multiJ struct {
+	Kind  string  `json:"kind"`
+	Peers int     `json:"peers"`
+	PutR  []int64 `json:"putR"`
+	PutT  []int64 `json:"putT"`
+	Recv  []int64 `json:"recv"`
+}
+
+func runMulti(m multiJ) (restored [][4]int64, want [][4]int64, err error) {
+	logger := logging.New(io.Discard, 0)
+	st, e := leveldb.NewInMemoryStateStore(logger)
+	if e != nil {
+		return nil, nil, e
+	}
+	mk := func() *traffic.Service { return newService(st, 0, 0) }
+	svc := mk()
+	if e := svc.Init(); e != nil {
+		return nil, nil, e
+	}
+	ab := traffic.NewAddressBook(st)
+	addrs := make([]common.Address, m.Peers)
+	ovs := make([]boson.Address, m.Peers)
+	for i := 0; i < m.Peers; i++ {
+		addrs[i] = common.BytesToAddress(bytes.Repeat([]byte{byte(0x30 + i)}, 20))
+		ovs[i] = boson.NewAddress(bytes.Repeat([]byte{byte(0x40 + i)}, 32))
+		if e := ab.PutBeneficiary(ovs[i], addrs[i]); e != nil {
+			return nil, nil, e
+		}
+	}
+	// the running service has its own address book instance: register there too
+	svc = mk()
+	if e := svc.Init(); e != nil {
+		return nil, nil, e
+	}
+	want = make([][4]int64, m.Peers)
+	for i := 0; i < m.Peers; i++ {
+		if v := m.PutR[i]; v > 0 {
+			if e := svc.PutRetrieveTraffic(ovs[i], big.NewInt(v)); e != nil {
+				return nil, nil, e
+			}
+			want[i][0] = v
+		}
+		if v := m.PutT[i]; v > 0 {
+			if e := svc.PutTransferTraffic(ovs[i], big.NewInt(v)); e != nil {
+				return nil, nil, e
+			}
+			want[i][2] = v
+		}
+		if v := m.Recv[i]; v > 0 {
+			e := svc.ReceiveCheque(context.Background(), ovs[i], &chequePkg.SignedCheque{Cheque: chequePkg.Cheque{Recipient: selfAddr, Beneficiary: addrs[i], CumulativePayout: big.NewInt(v)}, Signature: []byte{1}})
+			if e != nil {
+				return nil, nil, e
+			}
+			want[i][3] = v
+		}
+	}
+	svc2 := mk()
+	if e := svc2.Init(); e != nil {
+		return nil, nil, e
+	}
+	restored = make([][4]int64, m.Peers)
+	for i := 0; i < m.Peers; i++ {
+		a, b, c, d, known := svc2.VerifTotals(addrs[i])
+		if known {
+			restored[i] = [4]int64{a.Int64(), b.Int64(), c.Int64(), d.Int64()}
+		}
+	}
+	return restored, want, nil
+}
+
 func coqOp(o opJ) string {
 	switch o.K {
 	case "putR":
@@ -606,6 +679,34 @@ func main() {
 		return
 	}
 	// corpus: the F-persist-order witness shape (two concurrent PutRetrieveTraffic), many grant orders
+	// several peers restored by one Init (the per-peer loop of trafficInit)
+	for i := 0; i < run.N(6, 40); i++ {
+		k := 2 + r.Intn(10)
+		m := multiJ{Kind: "multi-peer-restart", Peers: k}
+		for j := 0; j < k; j++ {
+			m.PutR = append(m.PutR, int64(r.Intn(20)))
+			m.PutT = append(m.PutT, int64(r.Intn(20)))
+			m.Recv = append(m.Recv, int64(r.Intn(3)*(1+r.Intn(9))))
+		}
+		var restored, want [][4]int64
+		var err error
+		ok := hx.WithTimeout(40*time.Second, func() { restored, want, err = runMulti(m) })
+		run.AddCase("", m, fmt.Sprintf("%v", m), true)
+		run.Hist("multi-peer-restart")
+		if !ok || err != nil {
+			run.Violate(hx.Violation{Sig: "run:hang-or-error", Detail: fmt.Sprintf("multi-peer case did not complete: ok=%v err=%v", ok, err), Case: m})
+			continue
+		}
+		run.OracleChecked(4 * k)
+		for j := 0; j < k; j++ {
+			names := []string{"retrieveTraffic", "lastSentCheque", "transferTraffic", "lastReceivedCheque"}
+			for f := 0; f < 4; f++ {
+				if restored[j][f] < want[j][f] {
+					run.Violate(hx.Violation{Sig: "restart:multi-peer:" + names[f] + "<completed", Detail: fmt.Sprintf("peer %d of %d: restored %s %d < completed %d", j, k, names[f], restored[j][f], want[j][f]), Case: m, Impl: restored, Want: want})
+				}
+			}
+		}
+	}
 	// a peer known only through cheques (no traffic totals stored yet)
 	do(caseJ{NoKeys: true, Progs: [][]opJ{{}, {}, {{"recv", 9}}}, CrashK: 99, Seed: 1}, "corpus.cheque-only-peer")
 	do(caseJ{NoKeys: true, Progs: [][]opJ{{{"putR", 4}}, {{"pay", 1}}, {{"recv", 9}}}, CrashK: 99, Seed: 2}, "corpus.cheque-only-peer")
